@@ -48,30 +48,35 @@ static Instance* construct(Slot& s) {
   return new (&s.fsm) Instance(g_rng);
 #endif
 }
-static void drive(Instance& f, uint8_t answers[16]) {
+static void drive(Instance& f, uint8_t answers[32]) {
   unsigned n = 0;
-  for (int step = 0; step < 2; ++step) {
-    f.update();
-    for (int s = 0; s < 6; ++s) answers[n++ & 15] = (uint8_t)(f.isActive((StateID) s) | (f.isResumable((StateID) s) << 1));
+  // every observable answer of the API, asked BEFORE the first step as well (a copy must already answer like the original) and after each step
+  for (int step = 0; step < 3; ++step) {
+    if (step) f.update();
+    for (int s = 0; s < 6; ++s) {
+      const Instance::Transition* t = f.lastTransitionTo((StateID) s);
+      answers[n++ & 31] = (uint8_t)(f.isActive((StateID) s) | (f.isResumable((StateID) s) << 1) | (t ? (1 + t->destination) << 2 : 0));
+    }
+    if (n < 32) answers[n++ & 31] = (uint8_t) f.previousTransitions().count();
   }
 }
 extern "C" void proof_two_storages() {
   fill_script();
-  uint8_t ans[2][16] = {};
+  uint8_t ans[2][32] = {};
   Slot s1, s2;                                                     // arbitrary, independent prior contents
   g_run = 0; g_pos = 0; Instance* a = construct(s1); drive(*a, ans[0]);
   g_run = 1; g_pos = 0; Instance* b = construct(s2); drive(*b, ans[1]);
   VASSERT(C10, g_len[0] == g_len[1], "identically driven instances invoke the same number of callbacks");
   bool same = true; for (unsigned i = 0; i < 96; ++i) if (i < g_len[0]) same = same && g_trace[0][i] == g_trace[1][i];
   VASSERT(C10, same, "identically driven instances invoke the same callbacks in the same order, whatever their storage contained");
-  bool same_ans = true; for (int i = 0; i < 16; ++i) same_ans = same_ans && ans[0][i] == ans[1][i];
+  bool same_ans = true; for (int i = 0; i < 32; ++i) same_ans = same_ans && ans[0][i] == ans[1][i];
   VASSERT(C10, same_ans, "identically driven instances give the same answers");
   VASSERT(C10/C01, a->_core.registry.compoActive[0] < 3, "the activation performed inside the constructor selects a sub-state");
 }
 // a copy continues exactly as the original would
 extern "C" void proof_copy() {
   fill_script();
-  uint8_t ans[2][16] = {};
+  uint8_t ans[2][32] = {};
   Slot s1; g_run = 0; g_pos = 0; Instance* a = construct(s1);
   a->update();
   const unsigned pos_at_copy = g_pos, len_at_copy = g_len[0];
@@ -81,6 +86,6 @@ extern "C" void proof_copy() {
   VASSERT(C10, g_len[0] - len_at_copy == g_len[1], "a copy invokes as many callbacks as the original does from the same point");
   bool same = true; for (unsigned i = 0; i < 96; ++i) if (i < g_len[1] && len_at_copy + i < 96) same = same && g_trace[0][len_at_copy + i] == g_trace[1][i];
   VASSERT(C10, same, "a copy continues exactly as the original would");
-  bool same_ans = true; for (int i = 0; i < 16; ++i) same_ans = same_ans && ans[0][i] == ans[1][i];
+  bool same_ans = true; for (int i = 0; i < 32; ++i) same_ans = same_ans && ans[0][i] == ans[1][i];
   VASSERT(C10, same_ans, "a copy gives the same answers as the original");
 }
